@@ -118,6 +118,21 @@ def _lambda_free_returns(body):
     return out
 
 
+def _walk_no_lambda(n):
+    for c in kids(n):
+        if c.get("k") == "Lambda":
+            continue
+        yield c
+        for x in _walk_no_lambda(c):
+            yield x
+
+
+class _Shaped:
+    """a helper body in the tail-return form of Inliner.value_shape (same ids, same CFG)"""
+    def __init__(self, stmts):
+        self.body = {"k": "Block", "s": stmts}
+
+
 class Inliner:
     def __init__(self, facts):
         self.facts = facts
@@ -288,6 +303,104 @@ class Inliner:
         return bool(f.body.get("s")) and ends(f.body["s"][-1])
 
     @staticmethod
+    def value_shape(f):
+        """(statements, CFG element ids to drop) of a value-returning helper brought into a form whose returns sit in tail
+        position, or None.  Two exact rewrites, the CFG keeps its own edges:
+          * `loop { .. return v; .. } return v;` at the top level of the body, v one local variable: the returns inside
+            the loop leave the loop and reach `return v` with v unchanged, i.e. they are `break`;
+          * guard clauses: `if(c) { A; return a; } B` is `if(c) { A; return a; } else { B }` (and the mirrored form)."""
+        stmts = list(f.body.get("s", []))
+        drop = set()
+        # -- returns of the result variable inside the last loop
+        if len(stmts) >= 2 and stmts[-1].get("k") == "Return" and stmts[-1].get("e") is not None \
+                and stmts[-2].get("k") in ("While", "For", "Do") and strip(stmts[-1]["e"]).get("k") == "Ref" \
+                and strip(stmts[-1]["e"]).get("dk") in ("local", "param"):
+            v = strip(stmts[-1]["e"])["d"]
+            loop = copy.deepcopy(stmts[-2])
+            ok = [True]
+            hits = []
+
+            def rec(n, inner):
+                for c in kids(n):
+                    k = c.get("k")
+                    if k == "Lambda":
+                        continue
+                    if k == "Return":
+                        e = c.get("e")
+                        if inner or e is None or strip(e).get("k") != "Ref" or strip(e).get("d") != v:
+                            ok[0] = False
+                        else:
+                            hits.append(c)
+                        continue
+                    rec(c, inner or k in ("While", "For", "Do", "ForRange", "Switch", "Try"))
+            rec(loop, False)
+            if ok[0] and hits:
+                for r in hits:
+                    rid, rl = r.get("i"), r.get("l")
+                    drop.add(rid)
+                    r.clear()
+                    r.update({"k": "Break", "i": rid, "l": rl, "from_return": True})
+                stmts[-2] = loop
+        # -- guard clauses
+        fresh = [_max_id(f.body) + 1]
+
+        def new_block_id():
+            fresh[0] += 1
+            return fresh[0] - 1
+
+        def has_return(n):
+            return n is not None and any(x.get("k") == "Return" for x in ([n] + list(_walk_no_lambda(n))))
+
+        def ends(st):
+            if st is None:
+                return False
+            k = st.get("k")
+            if k == "Return":
+                return True
+            if k == "Block":
+                return bool(st.get("s")) and ends(st["s"][-1])
+            if k == "If":
+                return st.get("else") is not None and ends(st["then"]) and ends(st["else"])
+            return False
+
+        def as_list(st):
+            if st is None:
+                return []
+            return list(st["s"]) if st.get("k") == "Block" and not st.get("inl") else [st]
+
+        def nest(sts):
+            out = []
+            for idx, st in enumerate(sts):
+                k = st.get("k")
+                if k == "Block" and not st.get("inl") and has_return(st):
+                    st = dict(st)
+                    st["s"] = nest(st.get("s", []))
+                elif k == "If" and has_return(st):
+                    st = dict(st)
+                    th, el = st.get("then"), st.get("else")
+                    rest = sts[idx + 1:]
+                    if rest and ends(th) and not ends(el):
+                        st["then"] = {"k": "Block", "i": new_block_id(), "l": st.get("l"), "s": nest(as_list(th)), "synthetic_else": True}
+                        st["else"] = {"k": "Block", "i": new_block_id(), "l": st.get("l"), "s": nest(as_list(el) + rest), "synthetic_else": True}
+                        out.append(st)
+                        return out
+                    if rest and ends(el) and not ends(th):
+                        st["else"] = {"k": "Block", "i": new_block_id(), "l": st.get("l"), "s": nest(as_list(el)), "synthetic_else": True}
+                        st["then"] = {"k": "Block", "i": new_block_id(), "l": st.get("l"), "s": nest(as_list(th) + rest), "synthetic_else": True}
+                        out.append(st)
+                        return out
+                    if th is not None:
+                        st["then"] = {"k": "Block", "i": new_block_id(), "l": st.get("l"), "s": nest(as_list(th)), "synthetic_else": True}
+                    if el is not None:
+                        st["else"] = {"k": "Block", "i": new_block_id(), "l": st.get("l"), "s": nest(as_list(el)), "synthetic_else": True}
+                out.append(st)
+            return out
+        stmts = nest(stmts)
+        if fresh[0] - (_max_id(f.body) + 1) > 60:
+            return None
+        return stmts, drop
+
+    @staticmethod
     def pure_expr(f):
         """the returned expression if the body of f is `return <expr>;` only"""
         st = f.body.get("s", [])
@@ -444,10 +557,10 @@ class Inliner:
                 blocks[nbk["id"]] = nbk
             return True
 
-        def expand(call, cal, mode, target=None, pre_ids=()):
+        def expand(call, cal, mode, target=None, pre_ids=(), shaped=None):
             """-> (block node with bindings + body, cloned returned expression or None)"""
             cal = self.inline(cal, want, depth - 1, stack + (me,))
-            ok, ret = self.tail_return_only(cal)
+            ok, ret = self.tail_return_only(cal if shaped is None else _Shaped(shaped[0]))
             dmap = {}
             for x in walk(cal.body):
                 if x.get("k") == "Var" and "d" in x:
@@ -457,6 +570,8 @@ class Inliner:
             st["next_id"] += _max_id(cal.body) + 2 + 64      # + room for synthetic blocks of the early-return rewrite
             stmts = cal.body.get("s", [])
             drop = set()
+            if shaped is not None:
+                stmts, drop = list(shaped[0]), set(shaped[1])
             rexpr = None
             if mode == "multi":
                 pass        # returns stay where they are and become assignments to the target (below)
@@ -542,7 +657,20 @@ class Inliner:
                         blk, rexpr = expand(c, cal, "value")
                         slot[0][slot[1]] = rexpr
                         return [blk, s]
-                    if self.returns_in_tail_position(cal2):
+                    shaped = None
+                    if not self.returns_in_tail_position(cal2):
+                        # guard clauses / returns of the result variable inside a search loop: bring them into tail position
+                        shaped = self.value_shape(cal2)
+                        if shaped is not None:
+                            sh = _Shaped(shaped[0])
+                            ok, ret = self.tail_return_only(sh)
+                            if ok and ret is not None and ret.get("e") is not None:
+                                blk, rexpr = expand(c, cal, "value", shaped=shaped)
+                                slot[0][slot[1]] = rexpr
+                                return [blk, s]
+                            if not self.returns_in_tail_position(sh):
+                                shaped = None
+                    if shaped is not None or self.returns_in_tail_position(cal2):
                         # several returns (switch cases, if / else): `x = f(..)` is the body with `return e` -> `x = e`
                         pre = []
                         if k == "Decl":
@@ -566,7 +694,7 @@ class Inliner:
                                 s["e"]["i"] = new_id()
                             post = [s]
                             drop_el = []
-                        blk, _ = expand(c, cal, "multi", target=target, pre_ids=[x["i"] for x in pre if x.get("k") == "Decl" and k == "Decl"] )
+                        blk, _ = expand(c, cal, "multi", target=target, pre_ids=[x["i"] for x in pre if x.get("k") == "Decl" and k == "Decl"], shaped=shaped)
                         for e_ in drop_el:
                             for b_ in blocks.values():
                                 if e_ in b_["el"]:
